@@ -20,20 +20,25 @@ const (
 
 func init() {
 	for k, v := range map[string]externalFn{
-		"flag.Lookup":                 extFlagLookup,
-		"regexp.MatchString":          extRegexpMatchString,
-		"go/token.NewFileSet":         func(fr *frame, args []value) value { return newStruct(fr.i.namedType("go/token", "FileSet")) },
-		"go/parser.ParseFile":         extParseFile,
-		prettyPkg + ".Sprint":         extPrettySprint,
-		"encoding/json.Marshal":       extJSONMarshal,
-		yamlPkg + ".Unmarshal":        extYAMLUnmarshal,
-		yamlPkg + ".MarshalWithOptions": extYAMLMarshal,
-		yamlPkg + ".Indent":           func(fr *frame, args []value) value { return (*ssaFuncNil)(nil).v() },
-		yamlPkg + ".IndentSequence":   func(fr *frame, args []value) value { return (*ssaFuncNil)(nil).v() },
-		dmpPkg + ".New":               func(fr *frame, args []value) value { return newStruct(fr.i.namedType(dmpPkg, "DiffMatchPatch")) },
+		"flag.Lookup":                                          extFlagLookup,
+		"regexp.MatchString":                                   extRegexpMatchString,
+		"regexp.Compile":                                       extRegexpCompile,
+		"regexp.MustCompile":                                   extRegexpMustCompile,
+		"(*regexp.Regexp).MatchString":                         extRegexpObjMatchString,
+		"(*regexp.Regexp).Match":                               extRegexpObjMatch,
+		"(*regexp.Regexp).String":                              extRegexpObjString,
+		"go/token.NewFileSet":                                  func(fr *frame, args []value) value { return newStruct(fr.i.namedType("go/token", "FileSet")) },
+		"go/parser.ParseFile":                                  extParseFile,
+		prettyPkg + ".Sprint":                                  extPrettySprint,
+		"encoding/json.Marshal":                                extJSONMarshal,
+		yamlPkg + ".Unmarshal":                                 extYAMLUnmarshal,
+		yamlPkg + ".MarshalWithOptions":                        extYAMLMarshal,
+		yamlPkg + ".Indent":                                    func(fr *frame, args []value) value { return (*ssaFuncNil)(nil).v() },
+		yamlPkg + ".IndentSequence":                            func(fr *frame, args []value) value { return (*ssaFuncNil)(nil).v() },
+		dmpPkg + ".New":                                        func(fr *frame, args []value) value { return newStruct(fr.i.namedType(dmpPkg, "DiffMatchPatch")) },
 		"(*" + dmpPkg + ".DiffMatchPatch).DiffMain":            extDiffMain,
 		"(*" + dmpPkg + ".DiffMatchPatch).DiffCleanupSemantic": func(fr *frame, args []value) value { return args[1] },
-		"runtime/debug.ReadBuildInfo": func(fr *frame, args []value) value { return tuple{(*value)(nil), false} },
+		"runtime/debug.ReadBuildInfo":                          func(fr *frame, args []value) value { return tuple{(*value)(nil), false} },
 	} {
 		externals[k] = v
 	}
@@ -91,8 +96,58 @@ func (i *interpreter) inSafeClass(t *Term) *Term {
 // concrete and literal bytes in [A-Za-z0-9_/ -] (checked, not assumed); the
 // result is then ==, HasPrefix, HasSuffix or Contains, which is exact.
 func extRegexpMatchString(fr *frame, args []value) value {
+	return fr.i.regexpMatch(args[0], args[1])
+}
+
+// regexp.Compile / MustCompile: the compiled object remembers its pattern; an
+// invalid concrete pattern yields the real error, a symbolic pattern is checked
+// to stay in the literal class when it is matched.
+func extRegexpCompile(fr *frame, args []value) value {
 	i := fr.i
-	pat, s := args[0], args[1]
+	if ps, ok := args[0].(string); ok {
+		if _, err := regexp.Compile(ps); err != nil {
+			return tuple{(*value)(nil), i.mkError(err.Error())}
+		}
+	}
+	T := i.namedType("regexp", "Regexp")
+	p := newStruct(T)
+	i.path.extra[fmt.Sprintf("regexp:%p", p)] = args[0]
+	return tuple{p, nilErr()}
+}
+
+func extRegexpMustCompile(fr *frame, args []value) value {
+	r := extRegexpCompile(fr, args).(tuple)
+	if r[0].(*value) == nil {
+		panic(targetPanic{"regexp: Compile(" + toString(args[0]) + "): invalid pattern"})
+	}
+	return r[0]
+}
+
+func (i *interpreter) regexpPattern(re value) value {
+	p, _ := re.(*value)
+	if p == nil {
+		panic(targetPanic{"runtime error: invalid memory address or nil pointer dereference (nil *regexp.Regexp)"})
+	}
+	pat, ok := i.path.extra[fmt.Sprintf("regexp:%p", p)]
+	if !ok {
+		i.abort("regexp stub: Regexp value not produced by Compile/MustCompile")
+	}
+	return pat
+}
+
+func extRegexpObjMatchString(fr *frame, args []value) value {
+	return fr.i.regexpMatch(fr.i.regexpPattern(args[0]), args[1]).(tuple)[0]
+}
+
+func extRegexpObjMatch(fr *frame, args []value) value {
+	return fr.i.regexpMatch(fr.i.regexpPattern(args[0]), mkstr(args[1].([]value))).(tuple)[0]
+}
+
+func extRegexpObjString(fr *frame, args []value) value {
+	return fr.i.regexpPattern(args[0])
+}
+
+func (i *interpreter) regexpMatch(pat, s value) value {
 	if ps, ok := pat.(string); ok {
 		if ss, ok := s.(string); ok {
 			m, err := regexp.MatchString(ps, ss)
